@@ -73,6 +73,42 @@ META = {
 CRSS = ["EPSG:4326", "EPSG:3857", "EPSG:32633", "EPSG:3577", None]
 
 
+def _nodata_outside_dtype(arr, attrs, extra, dst_nodata) -> bool:
+    """True when a nodata value in play (keyword, destination, attribute) cannot be represented by the array's dtype."""
+    import numpy as _np
+    if hasattr(arr, "dtype"):
+        dts = [_np.dtype(arr.dtype)]
+    elif hasattr(arr, "data_vars"):
+        dts = [_np.dtype(v.dtype) for v in arr.data_vars.values()]
+    else:
+        return False
+    return any(_nodata_outside(dt, attrs, extra, dst_nodata) for dt in dts)
+
+
+def _nodata_outside(dt, attrs, extra, dst_nodata) -> bool:
+    import numpy as _np
+    vals = [dst_nodata]
+    for d in (extra or {}), (attrs or {}):
+        if isinstance(d, dict):
+            vals += [d.get("src_nodata"), d.get("dst_nodata"), d.get("nodata"), d.get("_FillValue")]
+    for v in vals:
+        if v is None:
+            continue
+        try:
+            f = float(v)
+        except (TypeError, ValueError):
+            continue
+        if dt.kind in "iu":
+            info = _np.iinfo(dt)
+            if not (f == f and info.min <= f <= info.max):
+                return True
+        elif dt.kind == "f":
+            fi = _np.finfo(dt)
+            if f == f and abs(f) != float("inf") and not (fi.min <= f <= fi.max):
+                return True
+    return False
+
+
 def _import():
     import warnings
 
@@ -1358,7 +1394,11 @@ def reproject_crs_part(R: Run, mods):
             # the resolution of a GCP box is an estimate in doubles (not dyadic): the grid built from it is judged by the
             # oracle below, not compared exactly
             R.count("reproject-args:gcp-source-resolution|oracle-only")
-            if not kw:
+            if not kw and _nodata_outside_dtype(arr, attrs, extra, dst_nodata):
+                # a nodata value the pixel type cannot hold is refused (ValueError) before anything is dispatched, for every
+                # kind of source (F72; modelled by nodata_range_check): "must succeed" does not apply
+                R.count("reproject-args:gcp-source|nodata-outside-dtype|not-judged")
+            elif not kw:
                 # no option at all: the call must succeed and give a linear grid in the requested CRS (never the GCP box)
                 ok = bool(box) and not real.startswith("ERR")
                 if ok and kind == "og":
